@@ -198,7 +198,7 @@ META = {
         [
             "this property has no schedule, clock or fault in it; it is decided inside the simulator as a step invariant with an independent oracle (seeded generation + oracle, nothing more; DESIGN.md section 4 C02)",
             "tolerance |diff| <= 1e-4 * (1 + sum |terms|): float32 accumulation vs float64 reference; generated values keep every term O(10)",
-            "DistRegBuilder / degenerate-MVN models are covered by C13's programs, not here",
+            "every 8th run is a DistRegBuilder model (Normal response, loc / scale predictors, p- and np-smooths with full- and deficient-rank penalties): totals compared with a float64 reference incl. the degenerate-normal prior on the range space of the penalty",
         ],
         run_cap_s=120, shrink_tests=300, shrink_s=60,
     ),
